@@ -394,4 +394,24 @@ def tmplRun {R : Type} (s : Tmpl R) : List (Name × Name × R) → Option (Tmpl 
   | [] => some s
   | (p, st, r) :: rest => (tmplWrite s p st r).bind (fun s1 => tmplRun s1 rest)
 
+/-- `PathTemplateWriter.write`, statement by statement, as the model below reads it (the regenerated
+    `Gen.templateWriteBody` is compared with it in `Lemmas/Writers.lean`): the template is formatted with `name`, the
+    record itself and `ts`, and `ts` is the record's own `_generated` (the clock only when the record has none) - no
+    conversion to a display zone, no other state. -/
+def templateWriteFrozen : List String :=
+  ["ts = record._generated or datetime.datetime.now(datetime.timezone.utc)",
+   "path = self.path_template.format(name=self.name, record=record, ts=ts)",
+   "rs = self.record_stream_for_path(path)",
+   "rs.write(record)",
+   "rs.fp.flush()"]
+
+/-- `record._generated or now(utc)` -/
+def tmplTs {T : Type} (generated : Option T) (now : T) : T := generated.getD now
+
+/-- a run of `write` calls given as (record, clock reading, rotation stamp of that moment): the path of each write is
+    what `fmt` - the template with `name` fixed - makes of the record and its `ts` -/
+def tmplRunRecords {R T : Type} (fmt : R → T → Name) (gen : R → Option T) (s : Tmpl R)
+    (ws : List (R × T × Name)) : Option (Tmpl R) :=
+  tmplRun s (ws.map fun w => (fmt w.1 (tmplTs (gen w.1) w.2.1), w.2.2, w.1))
+
 end FlowRecord.Writers
